@@ -80,7 +80,7 @@ type Menu struct {
 }
 
 type Shared struct {
-	S     [5]tensor.Tensor
+	S     [6]tensor.Tensor
 	Layer *layers.FC // a layer object shared by all goroutines
 	Soft  *activations.Softmax
 }
@@ -153,7 +153,9 @@ func NewShared() *Shared {
 	if y, err := s5.Mul(s5); err == nil {
 		tensor.BackPropagate(y)
 	}
-	return &Shared{S: [5]tensor.Tensor{s1, s2, s3, s4, s5}, Layer: fc, Soft: soft}
+	// the sixth one is a tracked INTERIOR tensor: computed from the shared parameter before the goroutines start
+	s6 := s1.Exp()
+	return &Shared{S: [6]tensor.Tensor{s1, s2, s3, s4, s5, s6}, Layer: fc, Soft: soft}
 }
 
 func resolve(sh *Shared, local []tensor.Tensor, slot [2]any) tensor.Tensor {
